@@ -2936,6 +2936,9 @@ impl VectorEngine {
             })
             .count();
 
+        if deleted > 0 {
+            self.invalidate_hnsw_cache("_default");
+        }
         Ok(deleted)
     }
 
